@@ -276,6 +276,12 @@ def handle (toks : List String) : String :=
         let r := acc.1.step ev
         (r, acc.2 ++ [s!"{r.g.preHooks.length},{r.g.postHooks.length},{r.g.modeStack.length}"])) (r0, [])
       ";".intercalate outs
+  -- C13: ext13 e|x …  → the switch and the number of open contexts after every event
+  | "ext13" :: evs =>
+      let (_, outs) := evs.foldl (fun (acc : (Bool × Nat) × List String) e =>
+        let st := extSwitch [e == "e"] acc.1.1 acc.1.2
+        (st, acc.2 ++ [s!"{st.1}:{st.2}"])) ((true, 0), [])
+      ";".intercalate outs
   -- C08: quant08 tree filter weights activations
   | ["quant08", tree, filt, w, a] =>
       let (m, _) := parseMod tree.toList
